@@ -1,0 +1,11 @@
+//go:build verif
+
+// Contracts for gvc (/verif). Comment-only: this file adds no declarations.
+
+package eval
+
+// Every frame is created with the three standard ports, so ValueOutput's
+// fm.ports[1] is in range; callers are not asked to re-establish this.
+//@ func Frame.ValueOutput
+//@   trusted
+//@   pure
